@@ -114,6 +114,17 @@ def drawTensorSamples [NumOrd α] (mean : List α) (covariance : Matrix α) (sou
         | (none, rest) => (.ok none, rest)
         | (some drawn, rest) => (.ok (some ⟨drawn, maxSamples, mean.length⟩), rest)
 
+/-- `MultivariateGaussian::draw` (matrix variant): the dimension names are the constants
+    `"samples"` and `"features"` -/
+def mvDrawMatrix [NumOrd α] (mean : List α) (covariance : Matrix α) (source : List α)
+    (maxSamples : Nat) : Outcome (Option (Matrix α)) × List α :=
+  drawTensorSamples mean covariance source maxSamples ("samples" == "features")
+
+/-- `MultivariateGaussianTensor::draw`: the caller chooses the two dimension names -/
+def mvDrawTensor [NumOrd α] (mean : List α) (covariance : Matrix α) (source : List α)
+    (maxSamples : Nat) (samples features : String) : Outcome (Option (Matrix α)) × List α :=
+  drawTensorSamples mean covariance source maxSamples (samples == features)
+
 end
 
 /-! ### constructor validation -/
